@@ -8,7 +8,6 @@ import (
 	"encoding/json"
 	"fmt"
 	"os"
-	"runtime/pprof"
 
 	"verifharness/checks/c08"
 	"verifharness/lib"
@@ -57,15 +56,6 @@ func main() {
 		os.Exit(0)
 	}
 	r := lib.NewReport(id)
-	if p := os.Getenv("VERIF_CPUPROFILE"); p != "" { // development aid only
-		if pf, err := os.Create(p); err == nil {
-			_ = pprof.StartCPUProfile(pf)
-			f(r)
-			pprof.StopCPUProfile()
-			_ = pf.Close()
-			r.Finish()
-		}
-	}
 	f(r)
 	r.Finish()
 }
